@@ -20,6 +20,8 @@
 (*   f = 0    o[j] = << list(obj j), obj.to_native(copy=True),             *)
 (*                      list(obj j) again >>                               *)
 (*   f = 1    o[j] = << <<>>, obj.to_native() (in place), <<>> >>          *)
+(*   f = 2    o[j] = << the list, <<>>, <<>> >>  (a command line of         *)
+(*            build.ninja projected onto the arguments of the history)     *)
 (***************************************************************************)
 EXTENDS ArgList, TLC, Json, IOUtils
 
@@ -47,8 +49,8 @@ OpAt(c, k, n) == IF "s" \in DOMAIN c THEN ToOp(T.ops[n][c.s[k]]) ELSE ToOp(c.ops
 \* verdicts of the final observation (at most one per case: the first object that differs)
 Final(c, objs) ==
     LET gnu == c.g = 1
-        badL(o)  == c.f = 0 /\ ToArgs(c.o[o][1]) # objs[o]
-        badN(o)  == ToArgs(c.o[o][2]) # NativeOf(objs[o], gnu)
+        badL(o)  == c.f \in {0, 2} /\ ToArgs(c.o[o][1]) # objs[o]
+        badN(o)  == c.f # 2 /\ ToArgs(c.o[o][2]) # NativeOf(objs[o], gnu)
         badL2(o) == c.f = 0 /\ ToArgs(c.o[o][3]) # objs[o]
         bad(o)   == badL(o) \/ badN(o) \/ badL2(o)
     IN IF Len(c.o) # Len(objs) THEN <<V(c, "ObjectCount", NOps(c) + 1, 0, <<Len(objs)>>, <<Len(c.o)>>)>>
